@@ -363,8 +363,51 @@ def vt_meta_guard_rule(ck, P):
     ck.check(ok, "E-COMP-META", b["q"] + "|meta-guard", "stored metadata is read and parsed exactly when header.meta_range.length > 0", "the versatiles reader does not parse its metadata when it is present (%s)" % why, ir.loc(b))
 
 
+def vector_layer_merge_rule(ck, P):
+    """R-MERGE|vector-layers: VectorLayers::merge visits every layer of the merged-in document and either merges it into the layer of
+    the same id or stores it; VectorLayer::merge combines the optional zoom limits as documented — the smaller minzoom / larger maxzoom
+    when both are present, otherwise whichever is present (decided by evaluating the method for the four None/Some cases, optmerge.py)."""
+    from . import mvt, optmerge
+    vm = [b for b in P.bodies if b["q"].endswith("tilejson::vector_layer::VectorLayer::merge")]
+    vs = [b for b in P.bodies if b["q"].endswith("tilejson::vector_layer::VectorLayers::merge")]
+    if not ck.anchor("R-MERGE", "VectorLayer::merge + VectorLayers::merge", vm + vs, 2):
+        return
+    b = vm[0]
+    for fld, kind in (("minzoom", "min"), ("maxzoom", "max")):
+        got = optmerge.merged(b, fld)
+        want = optmerge.expected(kind)
+        bad = ["self=%s, other=%s gives %s instead of %s" % (k[0], k[1], optmerge.show(got[k]), optmerge.show(want[k])) for k in sorted(want) if got[k] != want[k]]
+        ck.check(not bad, "R-MERGE", "VectorLayer::merge|" + fld, "%s after merge = %s of both when both are present, otherwise whichever is present (4 cases evaluated)" % (fld, kind),
+                 "VectorLayer::merge combines %s wrongly: %s" % (fld, "; ".join(bad)), ir.loc(b))
+    # fields: every field of other is inserted; description: other's wins when present
+    lp = [n for n in ir.walk_nodes(b["body"]) if n.get("k") == "for" and ir.contains(n["iter"], lambda y: y.get("k") == "field" and y.get("name") == "fields" and ir.place_str(y) == "other.fields")]
+    okf = len(lp) == 1 and mvt.exit_counts(P, {"body": lp[0]["body"]}, lambda y: 1 if (y.get("k") == "mcall" and y.get("name") == "insert" and ir.place_str(y["recv"]) == "self.fields") else None) == {1}
+    ck.check(okf, "R-MERGE", "VectorLayer::merge|fields", "every field of the merged-in layer is inserted into self.fields", "not every field of the merged-in layer is inserted", ir.loc(b))
+    b = vs[0]
+    lp = [n for n in ir.walk_nodes(b["body"]) if n.get("k") == "for"]
+    ok, why = False, "%d loops" % len(lp)
+    if len(lp) == 1:
+        it = ir.strip(lp[0]["iter"])
+        while it.get("k") in ("ref", "mcall") and (it.get("k") == "ref" or it.get("name") in ("iter", "into_iter")):
+            it = ir.strip(it["e"] if it.get("k") == "ref" else it["recv"])
+        over = ir.place_str(it).startswith("other.0") or ir.place_str(it) == "other"
+        binds = {x["name"]: x["hid"] for x in ir.pat_binds(lp[0]["pat"])}
+        ev = lambda y: 1 if ((y.get("k") == "mcall" and (ir.callee(y) or "").endswith("VectorLayer::merge")) or
+                             (y.get("k") == "mcall" and y.get("name") == "insert" and ir.place_str(y["recv"]).startswith("self.0"))) else None
+        cnt = mvt.exit_counts(P, {"body": lp[0]["body"]}, ev)
+        esc = [y["k"] for y in ir.walk_nodes(lp[0]["body"]) if y.get("k") in ("break", "continue", "ret")]
+        # what is merged / stored is the visited layer, under the visited id
+        uses = [y for y in ir.walk_nodes(lp[0]["body"]) if ev(y)]
+        args_ok = all(any(z.get("k") == "path" and z.get("r") == "local" and z.get("hid") in binds.values() for z in ir.walk_nodes(a)) for y in uses for a in y.get("a", ()))
+        ok = over and cnt == {1} and not esc and args_ok and len(binds) == 2
+        why = "iterates other's layers=%s, merges-or-stores per layer %s, early exits %s, arguments from the visited entry=%s" % (over, sorted(cnt), esc, args_ok)
+    ck.check(ok, "R-MERGE", "VectorLayers::merge", "every layer of the merged-in document is merged into the layer with its id or stored under its id, exactly once",
+             "VectorLayers::merge does not merge-or-store every layer exactly once (%s)" % why, ir.loc(b))
+
+
 def rules(ck, P):
     merge_rule(ck, P)
+    vector_layer_merge_rule(ck, P)
     vt_meta_guard_rule(ck, P)
     json_guard_rule(ck, P)
     meta_read_rule(ck, P)
